@@ -297,7 +297,7 @@ impl SyslogProcessor {
                 assert(self.syslinereader.assigned == a0.insert(lo - 1, yy));
                 assert(instant(syslinep.dt_spec()) == inst(lo - 1, yy));
             }
-//@before "year_opt = Some(year_opt.unwrap() - 1);"
+//@before "re:year_opt = Some\(" *
                             proof { assert(m[lo - 1].beg == fo_prev as int); }
 //@before "continue;"
                             proof {
